@@ -214,6 +214,9 @@ theorem C14_ops_keep_tokens (s : State) (c : OpCall) : (stepOp s c).1.slots = s.
   case verifyFinal => exact (onlyHandles_verify ..).2.2.1
   case genKey => exact slotsSame_genKey ..
   case genPair => exact slotsSame_genPair ..
+  case wrap => rw [adds_wrap]
+  case unwrap => exact (adds_unwrap ..).slots
+  case derive => exact (adds_derive ..).slots
 
 /-- non-vacuity: re-initialising token 0 of two tokens with its SO PIN removes its object and user PIN and leaves token 1 alone -/
 example :
